@@ -305,10 +305,30 @@ def run_property(modname, tier, seed, replay=None):
 
     if replay:
         body = json.load(open(os.path.join(VERIF, replay) if not os.path.isabs(replay) else replay))
-        case = mod.case_from_data(body['input'])
+        data = body.get('input')
+        if data is None and body.get('kind') == 'correspondence-broken':
+            try:                      # the disagreeing case is recorded in `what` as JSON
+                data = json.loads(body.get('what') or '{}').get('case')
+            except ValueError:
+                data = None
+        if data is None:
+            # a broken proof obligation (or a truncated record): nothing to execute; re-state what no longer checks
+            say(f'replay {replay}: kind={body.get("kind")} names {body.get("theorem_or_stream")}: '
+                f'{str(body.get("what"))[:600]}')
+            say('re-run the check itself to see whether the obligation still fails: ./check ' + pid)
+            return 1
+        case = mod.case_from_data(data)
         out = safe_impl(mod, case)
         bad = safe_oracle(mod, case, out)
-        say(f'replay {replay}: impl={out[:200]} oracle={"FAIL: " + str(bad)[:300] if bad else "ok"}')
+        msg = f'replay {replay}: impl={out[:200]} oracle={"FAIL: " + str(bad)[:300] if bad else "ok"}'
+        if body.get('kind') == 'correspondence-broken' and case.line is not None and os.path.exists(driver_path(pid)):
+            try:
+                mo = run_driver([case.line], pid=pid)[0]
+                msg += f' model={mo[:200]} ' + ('AGREE' if mo == out else 'DISAGREE')
+                bad = bad or (mo != out)
+            except Exception as e:
+                msg += f' model-error={e!r}'
+        say(msg)
         return 1 if bad else 0
 
     # ---------------------------------------------------------------- proofs
@@ -461,7 +481,7 @@ def run_property(modname, tier, seed, replay=None):
         o = safe_impl(mod, c)
         m = run_driver([c.line])[0] if dok else None
         broken.append(('correspondence-broken', f'corr:{pid}/{c.stream}',
-                       json.dumps({'case': c.data, 'impl': o, 'model': m}, default=str)[:1500]))
+                       json.dumps({'case': c.data, 'impl': o, 'model': m}, default=str)[:1500], c.data))
 
     if broken and nviol == 0:
         # a broken proof/correspondence is not by itself a violation: search for a failing input
@@ -479,8 +499,9 @@ def run_property(modname, tier, seed, replay=None):
                     found = True
                     break
         if not found:
-            kind, name, detail = broken[0]
-            rel = write_replay(pid, kind, seed, tier, None, detail, theorem_or_stream=name)
+            kind, name, detail = broken[0][:3]
+            bdata = broken[0][3] if len(broken[0]) > 3 else None
+            rel = write_replay(pid, kind, seed, tier, bdata, detail, theorem_or_stream=name)
             say(f'VIOLATION property={pid} replay={rel} no-failing-input-found')
             nviol += 1
 
@@ -500,7 +521,7 @@ def run_property(modname, tier, seed, replay=None):
             'traces_validated_against_impl': len(model_outs),
             'correspondence_disagreements': len(disagreements),
             'input_distribution': stats, 'samples': samples,
-            'broken': [list(b) for b in broken],
+            'broken': [list(b[:3]) for b in broken],
             'model_source_changed': changed, 'escalated_cases': escalated, 'leanchecker': leanchecker,
             'known_findings_hit': sorted(known_hits),
         },
